@@ -135,7 +135,7 @@ def run_one(ch, env):
             d = env.fresh_dir()
             stage.populate(d)
 
-    sim = Sim(ch, step_cap=80000, vtime_cap=7200.0)
+    sim = Sim(ch, step_cap=80000)
     sim.rootdir = d
     sim.injected_at = None
     res["config"].update(common.sched_config(sim))
